@@ -1077,3 +1077,49 @@ m('c16-interior-vertex', ['C16'],
   (IM, "        vi = Vertex(x=(v0.x + v2.x) / 2,\n                    y=(v0.y + v2.y) / 2,",
    "        vi = Vertex(x=(v0.x + v1.x) / 2,\n                    y=(v0.y + v2.y) / 2,"),
   rule='R-quad-children')
+
+# ---- C08 ------------------------------------------------------------------
+m('c08-4b-2b', ['C08'],
+  (IP, "        return lambda xy: 1. / (4 * np.pi) * exp1(xy / (4 * b))",
+   "        return lambda xy: 1. / (4 * np.pi) * exp1(xy / (2 * b))"), rule='K6')
+m('c08-reversed', ['C08'],
+  (IP, """        return lambda xy: 1. / (4 * np.pi) * (exp1(xy /
+                                                   (4 * b)) - exp1(xy /
+                                                                   (4 * a)))""",
+   """        return lambda xy: 1. / (4 * np.pi) * (exp1(xy /
+                                                   (4 * a)) - exp1(xy /
+                                                                   (4 * b)))"""),
+  rule='K6')
+m('c08-inline-a0', ['C08'],
+  (IP, """            if a == 0:
+                fx = self.u0(xz) * exp1(xz_y / (4 * b))
+            else:
+                fx = self.u0(xz) * (exp1(xz_y / (4 * b)) - exp1(xz_y /
+                                                                (4 * a)))""",
+   """            fx = self.u0(xz) * (exp1(xz_y / (4 * b)) - exp1(xz_y /
+                                                            (4 * a)))"""),
+  rule='K7')
+m('c08-diam', ['C08'],
+  (IP, "            val = elem.diam**2 * (d - c) * FPI_INV * np.dot(",
+   "            val = elem.diam * (d - c) * FPI_INV * np.dot("), rule='R-prefactor')
+m('c08-h3', ['C08'],
+  (IP, "                val = h**3 * np.dot(fx, self.duff_3d_id.weights)",
+   "                val = h**2 * np.dot(fx, self.duff_3d_id.weights)"), rule='R-prefactor')
+m('c08-no-fpi', ['C08'],
+  (IP, "            val = elem.diam**2 * (d - c) * FPI_INV * np.dot(",
+   "            val = elem.diam**2 * (d - c) * np.dot("), rule='R-prefactor')
+m('c08-inline-b', ['C08'],
+  (IP, "                fx = self.u0(xz) * exp1(xz_y / (4 * b))",
+   "                fx = self.u0(xz) * exp1(xz_y / (2 * b))"), rule='K7')
+m('c08-u0-squared', ['C08'],
+  (IP, "                fx = self.u0(xz) * exp1(xz_y / (4 * b))",
+   "                fx = self.u0(xz) * self.u0(xz) * exp1(xz_y / (4 * b))"),
+  rule='R-prefactor')
+m('c08-evaluate-kernel', ['C08'],
+  (IP, """            return 1. / (4 * np.pi * t) * np.exp(-xy_sqr /
+                                                 (4 * t)) * self.u0(y)
+
+        #if (t < 0.01):""", """            return 1. / (4 * np.pi * t) * np.exp(-xy_sqr /
+                                                 (2 * t)) * self.u0(y)
+
+        #if (t < 0.01):"""), rule='K6')
